@@ -387,6 +387,8 @@ def run_case(case, flavour):
         objs = []
         by_str = {}
         by_ans = {}
+        by_port = {}
+        ans_to_str = {}
         for ident, kind in servers:
             if ident in seen:  # the same identifier listed twice is the same object listed twice
                 objs.append(seen[ident])
@@ -407,6 +409,9 @@ def run_case(case, flavour):
                 by_ans[o.answer_nameserver()] = ident
             seen[ident] = o
             objs.append(o)
+        for o in res._enrich_nameservers(list(seen.values()), {}, 53):
+            by_port[str(o)] = o.answer_port()
+            ans_to_str[o.answer_nameserver()] = str(o)
         res.nameservers = objs
         res.timeout = F(timeout_ms, 1000)
         res.lifetime = F(lifetime_ms, 1000)
@@ -441,12 +446,27 @@ def run_case(case, flavour):
             result = exc = None
             try:
                 qn = mkname(qname)
+                ty, cl = rdtype, rdclass
+                # the documented argument forms: Name or text, RdataType/int or text
+                if len(qname) > 0 and (len(qname) + rdtype + advance) % 2 == 0:
+                    qn = qn.to_text()
+                    if 0 < rdtype < 65536 and (rdtype + len(resolutions)) % 2 == 0:
+                        ty = dns.rdatatype.to_text(rdtype)
+                    if rdclass in (1, 3, 4) and (rdclass + len(script)) % 2 == 0:
+                        cl = dns.rdataclass.to_text(rdclass)
                 if flavour == "sync":
-                    result = res.resolve(qn, rdtype, rdclass, **kwargs)
+                    result = res.resolve(qn, ty, cl, **kwargs)
                 else:
-                    result = get_loop().run_until_complete(res.resolve(qn, rdtype, rdclass, backend=backend, **kwargs))
+                    result = get_loop().run_until_complete(res.resolve(qn, ty, cl, backend=backend, **kwargs))
             except Exception as e:  # noqa: BLE001
                 exc = e
+            # the port recorded with an error / an answer is the port of that server
+            errs = exc.kwargs.get("errors", []) if isinstance(exc, (dns.resolver.NoNameservers, dns.resolver.LifetimeTimeout)) else []
+            for er in errs:
+                if by_port.get(er[0]) != er[2]:
+                    tr.note(6)
+            if result is not None and result.nameserver is not None and by_port.get(ans_to_str.get(result.nameserver)) != result.port:
+                tr.note(7)
             out.append([env.trace, final_obs(result, exc, by_ans, by_str), clock.ms])
             # cache probes for this resolution's candidate names
             if res.cache is not None:
@@ -731,7 +751,7 @@ def gen_rcfg(rng):
         if dup:
             servers.append(list(rng.choice(dup)))
     timeout = rng.choice([2000, 2000, 500, 100, 1000, 3000])
-    lifetime = rng.choice([5000, 5000, 300, 1000, 2500, 10000, 0, 150])
+    lifetime = rng.choice([5000, 5000, 5000, 300, 1000, 2500, 10000, 10000, 0, 150])
     search = rng.sample(SUFFIXES, rng.choice([0, 0, 1, 2, 3]))
     if rng.random() < 0.05:
         search.append(nm("rel", "suffix"))
@@ -748,8 +768,8 @@ def gen_request(rng, first):
         qn = rng.choice(QNAMES_ABS)
     else:
         qn = [b"x" * 60, b"y" * 60, b"z" * 60, b"w" * rng.choice([40, 58, 59, 60, 63])]  # relative, near the 255 limit
-    rdtype = rng.choice(RDTYPES) if rng.random() < 0.96 else rng.choice([255, 41, 250, 128, 127, 256])
-    rdclass = 1 if rng.random() < 0.93 else rng.choice([3, 254, 255, 4])
+    rdtype = rng.choice(RDTYPES) if rng.random() < 0.985 else rng.choice([255, 41, 250, 128, 127, 256])
+    rdclass = 1 if rng.random() < 0.93 else rng.choice([3, 3, 3, 254, 255, 4])
     lifetime = None if rng.random() < 0.8 else rng.choice([200, 1000, 4000, 20000])
     search = rng.choice([None, None, 0, 1, 1])
     advance = 0 if first else rng.choice([0, 0, 10, 1000, 5001, 61000, 400000])
@@ -793,11 +813,13 @@ def gen_case(rng, profile=None, nscript=None):
     for _ in range(n):
         k = rng.choice(kinds)
         d = rng.choice(DURS)
-        if rng.random() < 0.02:
+        if rng.random() < 0.02 and rcfg[4] == 0:
+            # (with a cache a clock stepping backwards revives expired entries differently in Cache and
+            # LRUCache - outside the model and the property)
             d = rng.choice([-1, -200, -999, -1001, -3000])
         qc = qclass if rng.random() < 0.95 else rng.choice([1, 3])
         script.append([d, gen_reply(rng, k, qtype, qc, cands)])
-    tk = rng.choice(["timeout", "timeout", "answer", "servfail", "network", "nx", "trunc", "other", "nodata"])
+    tk = rng.choice(["timeout", "answer", "answer", "servfail", "network", "network", "nx", "nx", "trunc", "other", "nodata", "refused"])
     tail = [rng.choice([0, 1, 10, 100, 700, 2500]), gen_reply(rng, tk, qtype, qclass, cands)]
     return [rcfg, reqs, script, tail]
 
@@ -850,22 +872,113 @@ def exh_cases(depth, settings):
                 yield [rcfg, [req], script, [0, X_TIMEOUT]]
 
 
+def gen_long_soft(rng):
+    """many back-off rounds: soft failures with short durations under a long lifetime"""
+    n = rng.choice([1, 2, 3])
+    servers = [[i, rng.choice([0, 0, 2, 3, 1])] for i in range(n)]
+    lifetime = rng.choice([8000, 12000, 20000, 30000])
+    rcfg = [servers, rng.choice([2000, 500, 5000]), lifetime, 1, rng.choice([0, 1]), 0,
+            rng.sample(SUFFIXES, rng.choice([0, 1, 2])), ROOT, None]
+    req = [rng.choice(QNAMES_REL[:3]), A, 1, rng.randrange(2), 1, None, rng.choice([0, 1]), 0]
+    cands = py_candidates(rcfg, req[0], bool(req[6]))
+    kinds = ["servfail", "servfail", "other", "timeout", "trunc"]
+    script = []
+    for _ in range(rng.choice([0, 3, 10, 25, 40])):
+        k = rng.choice(kinds if rng.random() < 0.9 else ["nx", "refused", "malformed"])
+        script.append([rng.choice([0, 0, 1, 5, 30, 150]), gen_reply(rng, k, A, 1, cands)])
+    tail = [rng.choice([0, 0, 1, 20]), gen_reply(rng, rng.choice(["servfail", "other", "trunc"]), A, 1, cands)]
+    return [rcfg, [req], script, tail]
+
+
+def gen_backwards(rng):
+    """the clock steps backwards during the first queries"""
+    case = gen_case(rng, "mixed", nscript=rng.choice([2, 3, 5]))
+    case[0][4] = 0
+    for i, o in enumerate(case[2][:2]):
+        if rng.random() < 0.7:
+            o[0] = rng.choice([-1, -10, -200, -999, -1000, -1001, -1500, -5000])
+    return case
+
+
+def gen_cache_case(rng):
+    """several resolve() calls against one cache: same / different type, class, name; TTL expiry"""
+    rcfg = gen_rcfg(rng)
+    rcfg[4] = rng.choice([1, 2])
+    rcfg[2] = rng.choice([5000, 10000])
+    base = gen_request(rng, True)
+    base[1] = rng.choice([A, AAAA, TXT])
+    base[2] = rng.choice([1, 1, 1, 3])
+    reqs = [base]
+    for _ in range(rng.choice([1, 2, 3])):
+        r = list(base)
+        x = rng.random()
+        if x < 0.15:
+            r[1] = rng.choice([A, AAAA, TXT])
+        elif x < 0.25:
+            r[2] = rng.choice([1, 3])
+        elif x < 0.35:
+            r[0] = [lab.upper() for lab in r[0]]
+        elif x < 0.45:
+            r[4] = 1 - r[4]
+        r[7] = rng.choice([0, 1, 999, 1000, 1001, 4999, 5000, 5001, 59999, 60000, 60001, 299990, 300000, 86400000])
+        reqs.append(r)
+    cands = []
+    for r in reqs:
+        cands += py_candidates(rcfg, r[0], None if r[6] is None else bool(r[6]))
+    script = []
+    for _ in range(rng.choice([1, 2, 3, 4, 6])):
+        k = rng.choice(["answer", "answer", "nodata", "nx", "nx", "cname", "servfail", "timeout"])
+        qc = base[2] if rng.random() < 0.9 else rng.choice([1, 3])
+        rep = gen_reply(rng, k, base[1], qc, cands)
+        if not isinstance(rep, int):  # short TTLs so that expiry matters
+            for rr in rep[3] + rep[4]:
+                if rng.random() < 0.7:
+                    rr[3] = rng.choice([0, 1, 5, 60, 300])
+        script.append([rng.choice([0, 1, 10, 100]), rep])
+    tail = [rng.choice([0, 10]), gen_reply(rng, rng.choice(["answer", "nx", "timeout", "nodata"]), base[1], base[2], cands)]
+    return [rcfg, reqs, script, tail]
+
+
 def cases(ctx):
     rng = ctx.rng
-    n = ctx.n(1500, 30000)
-    profiles = ["mixed", "mixed", "soft", "hard", "search", "chain"]
+    n = ctx.n(1200, 12000)
+    profiles = ["mixed", "mixed", "soft", "hard", "search", "chain", "cache", "long-soft", "backwards", "cache"]
     for i in range(n):
         p = profiles[i % len(profiles)]
         ctx.count("profile:" + p)
-        yield "random-" + p, intern(gen_case(rng, p))
-    depth = ctx.n(2, 4)
-    settings = EXH_SETTINGS if not ctx.quick else EXH_SETTINGS[:3]
+        if p == "cache":
+            c = gen_cache_case(rng)
+        elif p == "long-soft":
+            c = gen_long_soft(rng)
+        elif p == "backwards":
+            c = gen_backwards(rng)
+        else:
+            c = gen_case(rng, p)
+        yield "random-" + p, intern(c)
+    # exhaustive small scopes: every sequence of outcome kinds up to a depth, per fixed setting
     k = 0
-    for c in exh_cases(depth, settings):
-        k += 1
-        yield "exhaustive", intern(c)
+    if ctx.quick:
+        plan = [(2, EXH_SETTINGS[:3], True)]
+    else:
+        plan = [(3, EXH_SETTINGS, True), (4, EXH_SETTINGS[:2], True), (5, EXH_SETTINGS[1:2], False)]
+    done = set()
+    scopes = []
+    for depth, settings, through_model in plan:
+        n0 = k
+        for c in exh_cases(depth, settings):
+            key = repr(c)
+            if key in done:
+                continue
+            done.add(key)
+            k += 1
+            yield ("exhaustive" if through_model else "exhaustive-oracle"), intern(c)
+        scopes.append(f"depth<={depth} x {len(settings)} settings ({'model+impl+oracle' if through_model else 'impl+oracle'}): {k - n0} new cases")
     ctx.notes["exhaustive"] = True
-    ctx.notes["exhaustive_scope"] = f"all sequences of <= {depth} outcome kinds out of {len(EXH_KINDS)} x {len(settings)} settings through model and both resolvers ({k} cases)"
+    ctx.notes["exhaustive_scope"] = f"all sequences of outcome kinds out of {len(EXH_KINDS)} ({', '.join(EXH_KINDS)}); " + "; ".join(scopes)
+
+
+def in_model(kind, case):
+    return kind != "exhaustive-oracle"
 
 
 # ---------------------------------------------------------------- oracle (property text on implementation outputs)
@@ -1007,7 +1120,7 @@ def check_flavour(fail0, case, res, flavour):
     ids = [s[0] for s in servers]
     dup_servers = len(set(ids)) != len(ids)
     outs, probes, anomalies = res
-    ANOM = {1: 'UDP query issued without raise_on_truncation', 2: 'UDP query issued without ignore_errors', 3: 'UDP query issued without ignore_unexpected', 4: 'query sent to the wrong port', 5: 'DoH query not POSTed'}
+    ANOM = {1: 'UDP query issued without raise_on_truncation', 2: 'UDP query issued without ignore_errors', 3: 'UDP query issued without ignore_unexpected', 4: 'query sent to the wrong port', 5: 'DoH query not POSTed', 6: 'errors entry carries the wrong port', 7: 'Answer.port is not the port of the answering server'}
     for an in anomalies:
         fail0('nameserver transport misuse: ' + ANOM.get(an, str(an)), sig='transport-%s' % an, flavour=flavour)
     clock = 0
@@ -1215,3 +1328,103 @@ ASSUMPTIONS = [
     "durations are non-negative in terminates_within_lifetime / tc_retry_once_same_server (a clock stepping backwards is exercised by the correspondence only)",
     "nameserver objects are distinct in broken_never_reasked (the same object listed twice is removed once per failure, as list.remove does)",
 ]
+
+
+# ---------------------------------------------------------------- the twin loops (sync / async) and dns/nameserver.py
+
+def _norm_loop(fn):
+    """normalise a resolve() body: strip awaits, map the async spellings onto the sync ones"""
+
+    class T(ast.NodeTransformer):
+        def visit_Await(self, node):
+            return self.visit(node.value)
+
+        def visit_Call(self, node):
+            self.generic_visit(node)
+            f = node.func
+            if isinstance(f, ast.Attribute) and f.attr == "async_query":
+                f.attr = "query"
+                node.keywords = [k for k in node.keywords if k.arg != "backend"]
+            if isinstance(f, ast.Attribute) and f.attr == "sleep" and isinstance(f.value, ast.Name) and f.value.id == "backend":
+                f.value.id = "time"
+            if isinstance(f, ast.Attribute) and f.attr == "_Resolution" and isinstance(f.value, ast.Attribute):
+                node.func = ast.Name(id="_Resolution", ctx=ast.Load())  # dns.resolver._Resolution -> _Resolution
+            return node
+
+    body = []
+    for st in fn.body:
+        if isinstance(st, ast.Expr) and isinstance(st.value, ast.Constant) and isinstance(st.value.value, str):
+            continue  # docstring
+        if isinstance(st, ast.If) and ast.unparse(st.test) == "not backend":
+            continue  # backend defaulting
+        body.append(T().visit(st))
+    return "\n".join(ast.unparse(ast.fix_missing_locations(x)) for x in body)
+
+
+def _find_method(path, cls, name):
+    tree = ast.parse(open(path, encoding="utf-8").read())
+    for node in tree.body:
+        if isinstance(node, ast.ClassDef) and node.name == cls:
+            for m in node.body:
+                if isinstance(m, (ast.FunctionDef, ast.AsyncFunctionDef)) and m.name == name:
+                    return m
+    return None
+
+
+def extra(ctx):
+    fails = []
+    repo = os.path.dirname(os.path.dirname(os.path.abspath(dns.resolver.__file__)))
+    sync = _find_method(os.path.join(repo, "dns", "resolver.py"), "Resolver", "resolve")
+    asyn = _find_method(os.path.join(repo, "dns", "asyncresolver.py"), "Resolver", "resolve")
+    if sync is None or asyn is None:
+        fails.append({"kind": "C16:twin-loops", "sig": "twin-loops", "what": "Resolver.resolve not found in dns/resolver.py or dns/asyncresolver.py"})
+    else:
+        a, b = _norm_loop(sync), _norm_loop(asyn)
+        if a != b:
+            import difflib
+            d = "\n".join(difflib.unified_diff(a.splitlines(), b.splitlines(), "sync", "async", lineterm="", n=1))
+            fails.append({"kind": "C16:twin-loops", "sig": "twin-loops",
+                          "what": "the asyncio resolve() loop is not the synchronous loop with awaits", "diff": d[:3000]})
+    ctx.notes["twin_loop_guard"] = "Resolver.resolve (sync) and asyncresolver.Resolver.resolve compared as normalised ASTs"
+    # dns/nameserver.py facts the resolver relies on
+    ns = dns.nameserver
+    facts = [
+        ("Do53Nameserver is not always-max-size", ns.Do53Nameserver("10.0.0.1").is_always_max_size() is False),
+        ("DoTNameserver is not always-max-size", ns.DoTNameserver("10.0.0.1").is_always_max_size() is False),
+        ("DoQNameserver is not always-max-size", ns.DoQNameserver("10.0.0.1").is_always_max_size() is False),
+        ("DoHNameserver is always-max-size", ns.DoHNameserver("https://h.example/dns-query").is_always_max_size() is True),
+        ("Do53 answer_nameserver/answer_port", (ns.Do53Nameserver("10.0.0.1", 5353).answer_nameserver(), ns.Do53Nameserver("10.0.0.1", 5353).answer_port()) == ("10.0.0.1", 5353)),
+        ("Do53 default port 53", ns.Do53Nameserver("10.0.0.1").answer_port() == 53),
+        ("DoH answer_port from URL / default 443", (ns.DoHNameserver("https://h.example:8443/q").answer_port(), ns.DoHNameserver("https://h.example/q").answer_port()) == (8443, 443)),
+        ("DoT/DoQ default port 853", (ns.DoTNameserver("10.0.0.1").answer_port(), ns.DoQNameserver("10.0.0.1").answer_port()) == (853, 853)),
+        ("str(Do53Nameserver)", str(ns.Do53Nameserver("10.0.0.1", 53)) == "Do53:10.0.0.1@53"),
+    ]
+    for what, ok in facts:
+        if not ok:
+            fails.append({"kind": "C16:nameserver", "sig": "nameserver-" + what, "what": "dns.nameserver: " + what + " does not hold"})
+    # nameserver_ports / default port reach the transport
+    seen = []
+
+    def fake_udp(q, where, timeout=None, port=53, **kw):
+        seen.append((where, port))
+        raise dns.exception.Timeout
+
+    saved = dns.query.udp
+    dns.query.udp = fake_udp
+    try:
+        r = dns.resolver.Resolver(configure=False)
+        r.nameservers = ["10.9.9.1", "10.9.9.2"]
+        r.nameserver_ports = {"10.9.9.2": 5300}
+        r.port = 1053
+        r.lifetime = 0.05
+        r.timeout = 0.01
+        try:
+            r.resolve("example.", "A")
+        except Exception:  # noqa: BLE001
+            pass
+    finally:
+        dns.query.udp = saved
+    if set(seen) != {("10.9.9.1", 1053), ("10.9.9.2", 5300)}:
+        fails.append({"kind": "C16:nameserver", "sig": "nameserver-ports", "what": "resolver.port / nameserver_ports do not reach the transport", "seen": sorted(set(seen))})
+    ctx.notes["extra_evaluations"] = len(facts) + 2
+    return fails
